@@ -1632,7 +1632,7 @@ fn main() -> std::process::ExitCode {
         "C15",
         "histories of 1-40 editing calls on one ControlFlowGraph (new_block, operations added to a block, unconditional_edge, conditional_edge with its complement, set_entry, set_exit, append(other), insert(other) with re-wiring, merge, Block::append, remove_instruction, and their invalid forms; block operands are selectors resolved on the live graph) and blockify of 0-5 generated per-instruction graphs; the invariants of the property are evaluated after every call, and merge / append / insert / blockify are compared with reference runs (fv::refil::Machine, 8 states) of the graph(s) before, and merge / append additionally by the set of instruction sequences of at most 10 operations that can be executed from the entry when guards are ignored (this also decides append onto a graph whose exit block has out-edges); non-trivial = a merge that removed at least one block or an append onto a non-empty graph; distinct = (set of call kinds, graph shape classes {cycle, self-loop, empty block, conditional edges, exit merged away}, capped counts of merges / appends / final blocks / final edges)",
         Box::new(|_t: Tier| from_tape(1400, decode)),
-        |t| t.pick(60_000, 3_000_000),
+        |t| t.pick(80_000, 3_000_000),
         check,
     );
     spec.render = render;
